@@ -5,6 +5,7 @@ import (
 	"go/ast"
 	"go/token"
 	"go/types"
+	"strings"
 
 	"verif/checker/core"
 )
@@ -252,50 +253,114 @@ func runR065(c *core.Ctx) {
 		_, fd := mustDecl(c, rel, name)
 		par := core.Parents(fd)
 		n, okAll := 0, true
+		// the booleans that say "the error is a *MissingRequiredFieldsError" (comma-ok assertions)
+		isMissing := map[types.Object]bool{}
 		ast.Inspect(fd.Body, func(x ast.Node) bool {
-			as, ok := x.(*ast.AssignStmt)
-			if !ok || len(as.Lhs) != 1 || len(as.Rhs) != 1 || !core.IsNil(inf, as.Rhs[0]) {
-				return true
-			}
-			tv, ok := inf.Types[as.Lhs[0]]
-			if !ok || !core.IsErrorType(tv.Type) {
-				return true
-			}
-			n++
-			// enclosing if: `_, mfe := err.(*MissingRequiredFieldsError); mfe && !c.StrictResponseDeserialization`
-			ifs, ok := par[par[as]].(*ast.IfStmt)
-			if !ok || ifs.Init == nil {
-				okAll = false
-				return true
-			}
-			init, ok := ifs.Init.(*ast.AssignStmt)
-			if !ok || len(init.Rhs) != 1 || len(init.Lhs) != 2 {
-				okAll = false
-				return true
-			}
-			ta, ok := core.Unparen(init.Rhs[0]).(*ast.TypeAssertExpr)
-			if !ok {
-				okAll = false
-				return true
-			}
-			if nn := namedOf(inf.Types[ta.Type].Type); nn == nil || core.NameOf(nn.Obj()) != "MissingRequiredFieldsError" {
-				okAll = false
-			}
-			okVar := core.ObjOf(inf, init.Lhs[1])
-			hasOK, hasStrict := false, false
-			for _, f := range core.Decompose(ifs.Cond, true, nil) {
-				if core.ObjOf(inf, f.Expr) == okVar && f.Val {
-					hasOK = true
+			if as, ok := x.(*ast.AssignStmt); ok && len(as.Lhs) == 2 && len(as.Rhs) == 1 {
+				if ta, ok := core.Unparen(as.Rhs[0]).(*ast.TypeAssertExpr); ok && ta.Type != nil {
+					if nn := namedOf(inf.Types[ta.Type].Type); nn != nil && core.NameOf(nn.Obj()) == "MissingRequiredFieldsError" {
+						isMissing[core.ObjOf(inf, as.Lhs[1])] = true
+					}
 				}
-				if sel, ok := core.Unparen(f.Expr).(*ast.SelectorExpr); ok && sel.Sel.Name == "StrictResponseDeserialization" && !f.Val {
-					hasStrict = true
-				}
-			}
-			if !hasOK || !hasStrict {
-				okAll = false
 			}
 			return true
 		})
+		guarded := func(at ast.Node) bool {
+			byKind := core.GuardedByFact(inf, par, at, func(f core.Fact) bool {
+				if f.Tag != nil || !f.Val {
+					return false
+				}
+				if id, ok := core.Unparen(f.Expr).(*ast.Ident); ok && isMissing[core.ObjOf(inf, id)] {
+					return true
+				}
+				if ta, ok := core.Unparen(f.Expr).(*ast.TypeAssertExpr); ok && ta.Type != nil {
+					nn := namedOf(inf.Types[ta.Type].Type)
+					return nn != nil && core.NameOf(nn.Obj()) == "MissingRequiredFieldsError"
+				}
+				return false
+			}, nil)
+			lenient := core.GuardedByFact(inf, par, at, func(f core.Fact) bool {
+				sel, ok := core.Unparen(f.Expr).(*ast.SelectorExpr)
+				if !ok || f.Tag != nil {
+					return false
+				}
+				fv, ok := core.ObjOf(inf, sel).(*types.Var)
+				return ok && fv.IsField() && core.NameOf(fv) == "StrictResponseDeserialization" && !f.Val
+			}, nil)
+			return byKind && lenient
+		}
+		// where the decoder's error is dropped: `err = nil`, or a return of a nil error after the decoder ran
+		var decodeCall token.Pos
+		ast.Inspect(fd.Body, func(x ast.Node) bool {
+			if call, ok := x.(*ast.CallExpr); ok && decodeCall == token.NoPos {
+				if f := core.Callee(inf, call); f == nil || strings.HasPrefix(core.NameOf(f), "Unmarshal") {
+					if tv, ok := inf.Types[call]; ok && tv.Type != nil {
+						if tup, ok := tv.Type.(*types.Tuple); ok && tup.Len() >= 1 && core.IsErrorType(tup.At(tup.Len()-1).Type()) {
+							if f != nil || func() bool { _, isVar := core.ObjOf(inf, call.Fun).(*types.Var); return isVar }() {
+								decodeCall = call.Pos()
+							}
+						}
+					}
+				}
+			}
+			return true
+		})
+		ast.Inspect(fd.Body, func(x ast.Node) bool {
+			switch y := x.(type) {
+			case *ast.AssignStmt:
+				if len(y.Lhs) != 1 || len(y.Rhs) != 1 || !core.IsNil(inf, y.Rhs[0]) {
+					return true
+				}
+				if tv, ok := inf.Types[y.Lhs[0]]; !ok || !core.IsErrorType(tv.Type) {
+					return true
+				}
+				n++
+				if !guarded(y) {
+					okAll = false
+				}
+			}
+			return true
+		})
+		// a return of a nil error reached while the decoder's error may still be non-nil drops it as well
+		if decodeCall != token.NoPos {
+			errVar := core.MainErrorVar(inf, fd)
+			seenRet := map[*ast.ReturnStmt]bool{}
+			core.NewFlow(c.M, inf, fd.Body).Run(&core.Automaton{
+				Node: func(st int, x ast.Node) int {
+					for _, call := range core.CallsIn(x) {
+						if call.Pos() == decodeCall {
+							st = 1 // the decoder's error is in errVar, not yet looked at
+						}
+					}
+					if as, ok := x.(*ast.AssignStmt); ok && st == 1 {
+						for i, l := range as.Lhs {
+							if core.ObjOf(inf, l) == errVar && len(as.Lhs) == len(as.Rhs) && core.IsNil(inf, as.Rhs[i]) {
+								st = 2 // cleared by an assignment (counted above)
+							}
+						}
+					}
+					if r, ok := x.(*ast.ReturnStmt); ok && st == 1 && len(r.Results) > 0 && core.IsNil(inf, r.Results[len(r.Results)-1]) && !seenRet[r] {
+						seenRet[r] = true
+						n++
+						if !guarded(r) {
+							okAll = false
+						}
+					}
+					return st
+				},
+				Edge: func(st int, facts []core.Fact) (int, bool) {
+					if st != 1 {
+						return st, true
+					}
+					for _, f := range facts {
+						if e, nonNil, ok := core.NilTest(inf, f); ok && core.ObjOf(inf, e) == errVar && errVar != nil && !nonNil {
+							st = 2
+						}
+					}
+					return st, true
+				},
+			})
+		}
 		c.Check(n == 1 && okAll, rel, name, "err is cleared only for a missing-fields error of a lenient client", fd.Pos(), "", fmt.Sprintf("%d statements clear err; guarded by the assertion and !StrictResponseDeserialization: %v", n, okAll))
 	}
 }
